@@ -303,15 +303,84 @@ fn gen_run(rng: &mut Rng) -> RunSpec {
             doc
         })
         .collect();
+    let mut docs = docs;
+    let mut aux: Vec<DocSpec> = vec![];
+    let mut cli_prepend = vec![];
+    let mut cli_append = vec![];
+    // a quarter of the plain runs schedule included test cases around the own ones: from the
+    // front-matter (Markdown) or with -P / -A (all documents of the run share the format then).
+    // An included test case may be the one that skips (default code 80; the model rejects runs in
+    // which "its" skip code would be ambiguous)
+    if !cram_compat && rng.chance(1, 4) {
+        let mk_aux = |rng: &mut Rng, tag: &str, fmt: Format, aux: &mut Vec<DocSpec>| -> String {
+            let k = aux.len();
+            let name = format!("aux/{tag}{k}.{}", if fmt == Format::Markdown { "md" } else { "t" });
+            let n = 1 + rng.below(2);
+            let tests = (0..n)
+                .map(|j| {
+                    let mut t = TestSpec::pass(&format!("{tag}{k}t{j}"));
+                    match rng.weighted(&[4, 2, 2, 2]) {
+                        0 => {}
+                        1 => t.output_ok = false,
+                        2 => {
+                            t.exit = *rng.pick(&[2, 3]);
+                            t.expect_code = if rng.bool() { Some(t.exit) } else { None };
+                        }
+                        _ => {
+                            t.exit = DEFAULT_SKIP_CODE;
+                            t.hard_exit = rng.bool();
+                            if rng.bool() {
+                                t.expect_code = Some(DEFAULT_SKIP_CODE);
+                            }
+                        }
+                    }
+                    t
+                })
+                .collect();
+            aux.push(DocSpec::new(&name, fmt, tests));
+            name
+        };
+        let uniform = docs.iter().all(|d| d.format == docs[0].format);
+        if uniform && rng.chance(1, 2) {
+            let fmt = docs[0].format;
+            if rng.bool() {
+                cli_prepend.push(mk_aux(rng, "P", fmt, &mut aux));
+            }
+            if rng.bool() || cli_prepend.is_empty() {
+                cli_append.push(mk_aux(rng, "A", fmt, &mut aux));
+            }
+        }
+        for d in docs.iter_mut().filter(|d| d.format == Format::Markdown) {
+            if rng.chance(1, 2) {
+                let n = mk_aux(rng, "p", Format::Markdown, &mut aux);
+                d.prepend.push(n);
+            }
+            if rng.chance(1, 2) {
+                let n = mk_aux(rng, "a", Format::Markdown, &mut aux);
+                d.append.push(n);
+            }
+        }
+    }
     RunSpec {
         args: docs.iter().map(|d| d.name.clone()).collect(),
         docs,
-        aux: vec![],
-        cli_prepend: vec![],
-        cli_append: vec![],
+        aux,
+        cli_prepend,
+        cli_append,
         cli_timeout_s: None,
         cram_compat,
     }
+}
+
+/// the test case with that id, wherever it is written (own or included document)
+fn spec_of(run: &RunSpec, id: &str) -> TestSpec {
+    run.docs
+        .iter()
+        .chain(run.aux.iter())
+        .flat_map(|d| d.tests.iter())
+        .find(|t| t.id == id)
+        .cloned()
+        .unwrap_or_else(|| TestSpec::pass(id))
 }
 
 /// the report, abbreviated when it is long
@@ -340,8 +409,10 @@ fn skip_findings(run: &RunSpec, docs: &[DocModel], results: &[(String, String, S
                 if offenders.is_empty() {
                     continue;
                 }
-                let t = &spec.tests[by];
-                let code = if t.skip_code.is_some() {
+                let t = &spec_of(run, &d.seq[by].id);
+                let code = if d.seq[by].role != Role::Own {
+                    "default-of-included-test-case"
+                } else if t.skip_code.is_some() {
                     "inline"
                 } else if spec.skip_code.is_some() {
                     "document"
@@ -412,7 +483,7 @@ impl Monitor for C15 {
     fn plan(&self, tier: Tier) -> Plan {
         let mut p = Plan::new(
             tier.pick(400, 6000),
-            "runs of 1-3 documents (Markdown/Cram); skip code default 80, per document (front-matter defaults) or per test case; skipping test case first/middle/last, by `exit N` or `(exit N)`; in script mode also `(exit <skip code>)` followed later by a hard `exit` with another code; documents in which a test case kills its own shell (`kill -9/-15/-11 $$`, first or middle position, ordinary test cases after it): nothing may be reported skipped; documents with an unreachable skip code (-1, -100, -255, 256, -80) in which test cases time out (per-test and document limit), detach, exit 80/255; two script-mode documents per quick run whose script is far larger than a pipe buffer and whose first test case exits with the skip code; a quarter of the runs under --cram-compat (Markdown documents executed as one script with one skip code); neighbours that pass, fail, expect [80] / the skip code, exit with somebody else's code, time out; non-trivial = a document the model says is skipped, or a document where a test case exits with a code that is a skip code elsewhere (80, the document's, a neighbour's) without skipping; distinct = hash of (format, end, position, classes per test case) over the run",
+            "runs of 1-3 documents (Markdown/Cram), a quarter of the plain runs with included documents (front-matter prepend/append, -P/-A) whose test cases are scheduled around the own ones and may themselves be the skipper; skip code default 80, per document (front-matter defaults) or per test case; skipping test case first/middle/last, by `exit N` or `(exit N)`; in script mode also `(exit <skip code>)` followed later by a hard `exit` with another code; documents in which a test case kills its own shell (`kill -9/-15/-11 $$`, first or middle position, ordinary test cases after it): nothing may be reported skipped; documents with an unreachable skip code (-1, -100, -255, 256, -80) in which test cases time out (per-test and document limit), detach, exit 80/255; two script-mode documents per quick run whose script is far larger than a pipe buffer and whose first test case exits with the skip code; a quarter of the runs under --cram-compat (Markdown documents executed as one script with one skip code); neighbours that pass, fail, expect [80] / the skip code, exit with somebody else's code, time out; non-trivial = a document the model says is skipped, or a document where a test case exits with a code that is a skip code elsewhere (80, the document's, a neighbour's) without skipping; distinct = hash of (format, end, position, classes per test case) over the run",
         );
         p.chunk = tier.pick(2, 4);
         p.case_timeout_s = 120;
@@ -429,12 +500,14 @@ impl Monitor for C15 {
             ("script:skip-then-hard-exit".into(), tier.pick(3, 40)),
             ("large-script:skipper-leaves-the-shell".into(), tier.pick(1, 10)),
             ("shell-killed:tests-after-it".into(), tier.pick(3, 45)),
+            ("includes:skipped-document".into(), tier.pick(5, 80)),
+            ("includes:skipper-is-included".into(), tier.pick(1, 15)),
             ("unreachable-skip-code:timed-out".into(), tier.pick(3, 50)),
             ("kind:skipped".into(), tier.pick(200, 2400)),
         ];
         p.assumptions = vec![
             "--cram-compat runs: Markdown documents with one skip code per document (front-matter defaults and/or the same inline value on every test case), no per-test timeouts, hard `exit` only with the skip code; documents with differing per-test configuration are rejected by scrut and not generated".into(),
-            "included (prepend/append) test cases are not part of this workload: which skip code is 'theirs' is not decided by the statement".into(),
+            "a quarter of the plain runs schedule included test cases (front-matter prepend/append, -P/-A) around the own ones; the skipper may be an included test case (its code is the default 80). Not generated (the model rejects them): a custom document code together with an included test case that exits with 80 or with that code, inline codes inside included documents - which code is 'theirs' is not decided by the statement; includes under --cram-compat".into(),
             "in Cram documents the only way out of the script is `exit 80`; other `exit`s abort the run (C20)".into(),
         ];
         p
@@ -506,7 +579,7 @@ impl Monitor for C15 {
             if let DocEnd::Killed { at } = d.end {
                 nontrivial = true;
                 buckets.push("shell-killed:tests-after-it".into());
-                buckets.push(format!("shell-killed:signal={}", spec.tests[at].kill_self));
+                buckets.push(format!("shell-killed:signal={}", spec_of(&case.run, &d.seq[at].id).kill_self));
                 buckets.push(format!("shell-killed:position={}", if at == 0 { "first" } else { "middle" }));
             }
             if spec.filler > 0 {
@@ -530,7 +603,13 @@ impl Monitor for C15 {
                 } else if findings.is_empty() {
                     return Checked::inconclusive(format!("the skipping test case {} left no marker", d.seq[by].id));
                 }
-                let t = &spec.tests[by];
+                let t = &spec_of(&case.run, &d.seq[by].id);
+                if d.seq.iter().any(|x| x.role != Role::Own) {
+                    buckets.push("includes:skipped-document".into());
+                    if d.seq[by].role != Role::Own {
+                        buckets.push("includes:skipper-is-included".into());
+                    }
+                }
                 if d.script && d.format == Format::Markdown {
                     buckets.push(
                         if t.skip_code.is_some() {
@@ -554,7 +633,8 @@ impl Monitor for C15 {
                 if t.expect_code == Some(t.exit) {
                     buckets.push("skip:code-was-expected".into());
                 }
-                if d.script && spec.tests.iter().skip(by + 1).any(|x| x.hard_exit && x.exit != t.exit) && !t.hard_exit {
+                let own_at = spec.tests.iter().position(|x| x.id == t.id);
+                if d.script && own_at.is_some_and(|o| spec.tests.iter().skip(o + 1).any(|x| x.hard_exit && x.exit != t.exit)) && !t.hard_exit {
                     buckets.push("script:skip-then-hard-exit".into());
                 }
                 buckets.push(format!("skip:position={}", if by == 0 { "first" } else if by + 1 == d.seq.len() { "last" } else { "middle" }));
